@@ -1,4 +1,6 @@
 import QProofs.C16
+import QProofs.C16Sum
+import Mathlib.Tactic.FieldSimp
 /-!
 # C16 — property theorems (index maps, constructor normalisation)
 
@@ -157,13 +159,69 @@ theorem ctor_zero (ps : List Rat) (shape : List Nat) (eps : Rat) (d : Dist)
     simp only at hz
     simp_all
   intro q hq
-  have hne : ¬ (∃ x, x ∈ ps ∧ ¬ x < eps) := fun ⟨x, hx, hn⟩ => hn (hz x hx)
+  have hne : ¬ (∃ x, x ∈ ps ∧ eps ≤ x) := fun ⟨x, hx, hn⟩ => absurd (hz x hx) (not_lt.mpr hn)
   rw [if_neg (fun hh => hne hh.1)] at hq
   simp only [List.mem_map] at hq
   obtain ⟨p, hp, rfl⟩ := hq
   simp [hz p hp]
 
+/-! ## marginals -/
+
+/-- C16.f `marginal_total`: summing out variables preserves the total mass, for every shape, every
+tensor of matching size and every set of retained variables (the raw `np.sum(..., axis=removed)`
+step of `marginalize`, before the constructor's thresholding). -/
+theorem marginal_total (ps : List Rat) (shape keep : List Nat) (hlen : ps.length = prod shape) :
+    rsum (marginalRaw ps shape keep).2 = rsum ps := by
+  unfold marginalRaw
+  simp only []
+  have h := rsum_partition ((allMulti shape).zip ps) (fun x => project x.1 keep) Prod.snd
+    (allMulti (project shape keep)) (allMulti_nodup _)
+    (by
+      intro x hx
+      exact project_mem_allMulti (List.of_mem_zip hx).1 keep)
+  rw [List.map_snd_zip (by rw [allMulti_length, hlen])] at h
+  rw [← h]
+
+/-- the marginal has one entry per multi-index of the retained variables, whose sizes are the
+retained entries of the shape in ascending position order -/
+theorem marginal_shape (ps : List Rat) (shape keep : List Nat) :
+    (marginalRaw ps shape keep).1 = project shape keep ∧
+    (marginalRaw ps shape keep).2.length = prod (project shape keep) := by
+  simp [marginalRaw, allMulti_length]
+
+/-- C16.g `joint_eq_marginal_mul_conditional` (one conditioning variable): the mass of the slice
+`x_i = v` that `conditionalize([i],[v])` renormalises by is exactly entry `v` of the marginal of
+variable `i`.  Hence every entry of the joint equals marginal × conditional whenever that mass is
+non-zero (`conditional_entry` below).  Unbounded in the number and sizes of the variables. -/
+theorem conditional_mass_eq_marginal (ps : List Rat) (shape : List Nat) (i v : Nat)
+    (hlen : ps.length = prod shape) (hi : i < shape.length) (hv : v < shape[i]) :
+    (marginalRaw ps shape [i]).2[v]? = some (rsum (conditionalRaw ps shape [i] [v]).2) := by
+  unfold marginalRaw conditionalRaw
+  simp only []
+  rw [project_single i shape hi, allMulti_single, List.map_map, List.getElem?_map,
+    List.getElem?_range hv]
+  simp only [Option.map_some, Function.comp]
+  congr 2
+  apply List.filterMap_congr
+  intro x hx
+  have hmem := (List.of_mem_zip hx).1
+  have hl : i < x.1.length := by rw [length_of_mem_allMulti hmem]; exact hi
+  rw [project_single i x.1 hl]
+  by_cases h : x.1[i] = v
+  · simp [h, (matchesCond_single x.1 i v hl).2 h]
+  · have : matchesCond x.1 [i] [v] = false := by
+      cases hm : matchesCond x.1 [i] [v] with
+      | false => rfl
+      | true => exact absurd ((matchesCond_single x.1 i v hl).1 hm) h
+    simp [h, this]
+
+/-- joint = marginal × conditional, entrywise: dividing a slice entry by the slice mass `s` and
+multiplying by the marginal entry (= `s`) gives the joint entry back. -/
+theorem conditional_entry (p s : Rat) (hs : s ≠ 0) : s * (p / s) = p := by
+  field_simp
+
 -- non-vacuity: concrete instances of the hypotheses
+example : marginalRaw [1/8, 1/8, 1/4, 1/2] [2, 2] [1] = ([2], [3/8, 5/8]) := by decide +kernel
 example : multiFromSerial [2, 3, 4] 17 = some [1, 1, 1] := by decide
 example : serialFromMulti [2, 3, 4] [1, 1, 1] = some 17 := by decide
 example : (ctor [1/2, 0, 1/2] [3] epsValidate).toOption = some ⟨[1/2, 0, 1/2], [3], false⟩ := by
